@@ -441,3 +441,20 @@ Proof.
   rewrite Et, Hk in T. exact T.
 Qed.
 End RefineRun.
+
+(* ---------- the observation relation is an equivalence compatible with per-device projection *)
+Lemma obs_rel_sym a b : obs_rel a b -> obs_rel b a.
+Proof. induction 1 as [|x y l l' [H1 H2] _ IH]; constructor; [split; [symmetry; exact H1 | apply eqv_sym; exact H2] | exact IH]. Qed.
+
+Lemma obs_rel_trans a b c : obs_rel a b -> obs_rel b c -> obs_rel a c.
+Proof.
+  intros H. revert c. induction H as [|x y l l' [H1 H2] _ IH]; intros c Hc; inversion Hc as [|y' z l2 l3 [G1 G2] Hr]; subst; constructor.
+  - split; [congruence | eapply eqv_trans; eassumption].
+  - apply IH. exact Hr.
+Qed.
+
+Lemma obs_rel_dev_obs d a b : obs_rel a b -> obs_rel (dev_obs d a) (dev_obs d b).
+Proof.
+  induction 1 as [|x y l l' [H1 H2] _ IH]; [constructor|]. unfold dev_obs in *. cbn [filter]. unfold obs_comp in *. rewrite <- H1.
+  destruct (Pos.eqb (fst (fst x)) d); [constructor; [split; assumption | exact IH] | exact IH].
+Qed.
